@@ -32,8 +32,16 @@ def rule_pause_first(rep: Report, repo: Repo) -> None:
               assign == ['breakpoint_handler = handle_breakpoint(breakpoint_handler, ip, mem, statistics)'], 'C15.PAUSE-FIRST', '_run_featured:call',
               f'{cond}; {assign}', f'{RUN_REL}:{fn.lineno}', expected='should_break(ip, completed ops); handler replaced by the returned one')
     sb = repo.func(BRK, 'BreakpointHandler.should_break')
-    ret = [norm(r.value) for r in ast.walk(sb) if isinstance(r, ast.Return)]
-    rep.check(ret == ['self.next_break == op_counter or ip in self.breakpoints'], 'C15.PAUSE-FIRST', 'should_break', str(ret), f'{BRK}:{sb.lineno}')
+    # the predicate's value as one propositional formula (all its paths), compared by truth table
+    from .. import linexpr as lx
+    try:
+        got = lx.py_bool_function(sb.body, 'should_break')
+        want = lx.bool_form(lx.py_ir(ast.parse('self.next_break == op_counter or ip in self.breakpoints', mode='eval').body))
+        sb_ok = lx.bf_equiv(got, want)
+    except (lx.Unrecognised, AnalysisError) as ex:
+        sb_ok, got = False, str(ex)
+    rep.check(sb_ok, 'C15.PAUSE-FIRST', 'should_break', 'next_break == op_counter or ip in breakpoints (truth table over the atoms)' if sb_ok else str(got)[:200],
+              f'{BRK}:{sb.lineno}')
 
 
 def rule_commands(rep: Report, repo: Repo) -> None:
@@ -259,10 +267,12 @@ def rule_decode(rep: Report, repo: Repo) -> None:
               f'data bits at offset #w, width by type (table ok={tab_ok}; 144 grid cases)', site)
     rep.check(order_ok, 'C15.DECODE', 'cell-order', 'cells combined from the last word to the first (the first cell ends least significant)'
               if order_ok else 'iteration order of the fold changed', site)
-    off = repo.func(DM, 'DeviceMemory._data_bit_offset')
-    ret = [norm(r.value) for r in ast.walk(off) if isinstance(r, ast.Return)]
-    rep.check(ret == ['self.memory_width.bit_length()'], 'C15.DECODE', 'same-offset-as-device', str(ret), f'{DM}:{off.lineno}',
-              expected='#w = w.bit_length() in both')
+    # the device's data-bit offset, read off its read accessor with private helpers / properties substituted
+    from .c19 import device_accessor_formulas
+    rdb = repo.func(DM, 'DeviceMemory.read_data_byte')
+    ret = [b for b in device_accessor_formulas(repo)[0] if b.startswith('return')]
+    rep.check(len(ret) == 1 and ret[0].endswith('>> self.memory_width.bit_length() & 255'), 'C15.DECODE', 'same-offset-as-device', str(ret),
+              f'{DM}:{rdb.lineno}', expected='#w = w.bit_length() in both')
     # f/j prefixes: on every path that consumes the prefix the returned address is address + w * (2*len*index [+1 for j]);
     # decided per type letter on the partially evaluated function (forward substitution, folded on a grid)
     from ..pyfacts import specialize
